@@ -8,6 +8,7 @@ full density range, structured families, disjoint unions, isolated nodes).
 import numpy as np
 from hypothesis import strategies as st
 
+from vp import pbt
 from vp.pbt import SubCheck, sel
 from vp.gen import graphs as G
 from vp.ref import graph as R
@@ -369,6 +370,29 @@ def oracle_heavy(case, rec):
          "newman_betweenness", rtol=1e-8)
     plan.cmp(net, "arenas_betweenness", R.arenas_betweenness(A),
          "arenas_betweenness", rtol=1e-8)
+    # the n.s.i. random-walk betweennesses against their random-walk /
+    # circuit definitions (vp.ref.graph), node weights k/8 or unit
+    if n <= 11:
+        wv = np.ones(n) if case.get("w") is None else \
+            np.array(case["w"], dtype=float)
+        rec.label("rw_unit_weights" if case.get("w") is None
+                  else "rw_node_weights")
+        hk = int(pbt.case_hash(case)[:4], 16)
+        excl, mode = bool(hk & 1), ("neighbors", "twinness")[(hk >> 1) & 1]
+        ref = R.nsi_arenas_betweenness(A, wv, excl, mode)
+        plan.cmp(net, "nsi_arenas_betweenness", ref,
+                 "nsi_arenas_betweenness_def_%s_%s" % (
+                     "excl" if excl else "all", mode),
+                 kw={"exclude_neighbors": excl, "stopping_mode": mode},
+                 rtol=1e-7, atol=1e-7 * max(1.0, float(np.abs(ref).max())))
+        ale = bool((hk >> 2) & 1)
+        ref = R.nsi_newman_betweenness(A, wv, ale)
+        plan.cmp(net, "nsi_newman_betweenness", ref,
+                 "nsi_newman_betweenness_def" + ("_local_ends" if ale
+                                                 else ""),
+                 kw={"add_local_ends": ale}, rtol=1e-7,
+                 atol=1e-7 * max(1.0, float(np.abs(ref).max()),
+                                 float(wv.sum()) ** 2))
     if connected and n >= 3 and U.sum():
         plan.cmp(net, "eigenvector_centrality",
              R.eigenvector_centrality(A), "eigenvector_centrality",
@@ -503,7 +527,7 @@ def heavy_cases(draw, n_min=3, n_max=13):
     g = draw(st.one_of(G.graphs(n_min, n_max, False),
                        G.connected_graph(n_min, n_max)))
     n = g["n"]
-    return {"g": g, "w": None,
+    return {"g": g, "w": draw(st.one_of(st.none(), G.node_weights(n))),
             "W": draw(st.one_of(st.none(), G.link_attr(n, False)))}
 
 
@@ -526,7 +550,7 @@ def dense_cases(draw):
 
 def enum_small_heavy(tier):
     for idx, g in enumerate(G.all_small_graphs(5, 0)):
-        yield {"g": g, "w": None,
+        yield {"g": g, "w": _dyadic_w(g["n"], idx) if idx % 3 else None,
                "W": _attr(g["n"], False, idx % 4) if idx % 2 else None}
 
 
